@@ -12,12 +12,25 @@
      no_location_added      no key, element or nested document appears
    Proved: one JSON path with any number of matches (C15_one_path); one argument through any
    number of json() hops, with and without base64, under the contracts of the JSON / base64
-   libraries, when the part in front of each hop denotes at most one location (C15_one_argument).
-   Refuted: the same without that restriction (C15_wildcard_hop_refuted = recorded finding).
-   Not proved: several arguments in sequence; xml() hops (mxj is an oracle of the model; they are
-   checked on the implementation only). *)
+   libraries, when the part in front of each hop denotes at most one location (C15_one_argument);
+   several plain JSON paths in sequence, overlapping or not, any fragments, for the locations they
+   denote in the ORIGINAL record (C15_several_paths), where the result is the original record with
+   every denoted subtree replaced by the marker (C15_several_paths_value) and therefore the same
+   for every order of the paths (C15_several_paths_order_value, C15_several_paths_any_order);
+   several ARGUMENTS of redact in sequence through redact_model, each with any number of json()
+   hops, for the locations they denote in the ORIGINAL record, when every argument is not empty,
+   has no xml() piece, has pieces that path_ok accepts, and denotes at most one location in front
+   of each hop IN THE ORIGINAL RECORD (that this still holds on the records the earlier arguments
+   produced is proved, not assumed) (C15_several_arguments); the clauses then hold for every order
+   of the arguments (C15_several_arguments_any_order; there the resulting values are only shown to
+   satisfy the clauses, their equality across orders is not proved for arguments with hops).
+   Refuted: the same without the one-location restriction (C15_wildcard_hop_refuted = recorded finding).
+   Not proved: xml() hops (mxj is an oracle of the model; they are checked on the implementation
+   only); arguments with an empty piece or a piece ending in a descent (redact_rec reports an
+   error for them, setMatches hands them to jp.Expr.Set which is not modelled). *)
 Require Import V.Base.Prelude V.KflText.Macro V.KflText.RJv V.KflText.Redact V.KflText.RedactSpec
-  V.KflText.RJson V.KflText.RedactProofs V.KflText.RedactWitness.
+  V.KflText.RJson V.KflText.RedactProofs V.KflText.RedactMulti V.KflText.RedactArgs V.KflText.RedactWitness.
+From Coq Require Import Permutation.
 
 Theorem C15_one_path :
   forall (parse : bytes -> option jv) (b64d : bytes -> option bytes),
@@ -62,3 +75,105 @@ Theorem C15_example :
              /\ sub parse b64d r' [SKey (by_ [97]%N); SIdx 0; SHop; SKey (by_ [100]%N)] = sub parse b64d wit_record [SKey (by_ [97]%N); SIdx 0; SHop; SKey (by_ [100]%N)]
              /\ sub parse b64d r' [SKey (by_ [97]%N); SIdx 1] = Some (JStr doc2).
 Proof. exact example_redaction. Qed.
+
+(* ---- several paths in sequence (what redact does with several arguments that have no hops) ----
+   D = the locations the paths denote in the ORIGINAL record; overlapping paths, any fragments *)
+Theorem C15_several_paths :
+  forall (parse : bytes -> option jv) (b64d : bytes -> option bytes),
+  decode parse b64d REDACTED = None ->
+  forall (fss : list (list frag)) v, wf v ->
+    let v' := fold_left (fun acc fs => setm MARK fs acc) fss v in
+    let D := fun L => exists fs, In fs fss /\ Denotes fs v L in
+    marker_at_denoted parse b64d D v'
+    /\ frame parse b64d D v v'
+    /\ leaves_from_original parse b64d v v'
+    /\ no_location_added parse b64d v v'.
+Proof. exact several_paths_clauses. Qed.
+
+(* the result is the record with every denoted subtree replaced by the marker ... *)
+Theorem C15_several_paths_value :
+  forall (fss : list (list frag)) v,
+    fold_left (fun acc fs => setm MARK fs acc) fss v
+    = mark (flat_map (fun fs => rev (map fst (jmatches fs v))) fss) v.
+Proof. exact setm_all_value. Qed.
+
+(* ... so the order of the paths changes nothing, not even below the denoted locations *)
+Theorem C15_several_paths_order_value :
+  forall (fss fss' : list (list frag)) v, Permutation fss fss' ->
+    fold_left (fun acc fs => setm MARK fs acc) fss v = fold_left (fun acc fs => setm MARK fs acc) fss' v.
+Proof. exact setm_all_perm. Qed.
+
+Theorem C15_several_paths_any_order :
+  forall (parse : bytes -> option jv) (b64d : bytes -> option bytes),
+  decode parse b64d REDACTED = None ->
+  forall (fss fss' : list (list frag)) v, wf v -> Permutation fss fss' ->
+    let v' := fold_left (fun acc fs => setm MARK fs acc) fss' v in
+    let D := fun L => exists fs, In fs fss /\ Denotes fs v L in
+    marker_at_denoted parse b64d D v'
+    /\ frame parse b64d D v v'
+    /\ leaves_from_original parse b64d v v'
+    /\ no_location_added parse b64d v v'.
+Proof. exact several_paths_any_order. Qed.
+
+(* non-vacuity: redact("a", "a.b", "d"), overlapping and disjoint paths, both orders *)
+Theorem C15_several_paths_example :
+  wf multi_record
+  /\ paths_denote multi_paths multi_record [SKey ka]
+  /\ paths_denote multi_paths multi_record [SKey ka; SKey kb]
+  /\ paths_denote multi_paths multi_record [SKey kd]
+  /\ setm_all multi_paths multi_record = JObj [(ka, MARK); (kd, MARK); (ke, zq 52)]
+  /\ setm_all (rev multi_paths) multi_record = JObj [(ka, MARK); (kd, MARK); (ke, zq 52)].
+Proof. exact example_several_paths. Qed.
+
+(* ---- several arguments in sequence, with json() hops (redact_model = the loop of redact) ----
+   D = the locations the arguments denote in the ORIGINAL record.  An argument whose turn comes
+   after the record changed is evaluated on the changed record; an argument that then fails is
+   skipped.  SingleHops is required on the original record only. *)
+Theorem C15_several_arguments :
+  forall (parse : bytes -> option jv) (render : jv -> bytes) (b64d : bytes -> option bytes) (b64e : bytes -> bytes)
+         (xml_redact : bytes -> bytes -> option bytes),
+  decode parse b64d REDACTED = None ->
+  (forall v, parse (render v) = Some v) ->
+  (forall t, b64d (b64e t) = Some t) ->
+  (forall v, is_container v = true -> b64d (render v) = None) ->
+  (forall t v, parse t = Some v -> wf v) ->
+  forall (args : list (list seg)) v, wf v ->
+    (forall a, In a args -> a <> [] /\ ok_arg a /\ SingleHops parse b64d (map sjp a) v) ->
+    let v' := redact_model parse render b64d b64e xml_redact v args in
+    let D := fun L => exists a, In a args /\ DenotesArg parse b64d (map sjp a) v L in
+    marker_at_denoted parse b64d D v'
+    /\ frame parse b64d D v v'
+    /\ leaves_from_original parse b64d v v'
+    /\ no_location_added parse b64d v v'.
+Proof. exact several_arguments_clauses. Qed.
+
+Theorem C15_several_arguments_any_order :
+  forall (parse : bytes -> option jv) (render : jv -> bytes) (b64d : bytes -> option bytes) (b64e : bytes -> bytes)
+         (xml_redact : bytes -> bytes -> option bytes),
+  decode parse b64d REDACTED = None ->
+  (forall v, parse (render v) = Some v) ->
+  (forall t, b64d (b64e t) = Some t) ->
+  (forall v, is_container v = true -> b64d (render v) = None) ->
+  (forall t v, parse t = Some v -> wf v) ->
+  forall (args args' : list (list seg)) v, wf v -> Permutation args args' ->
+    (forall a, In a args -> a <> [] /\ ok_arg a /\ SingleHops parse b64d (map sjp a) v) ->
+    let v' := redact_model parse render b64d b64e xml_redact v args' in
+    let D := fun L => exists a, In a args /\ DenotesArg parse b64d (map sjp a) v L in
+    marker_at_denoted parse b64d D v'
+    /\ frame parse b64d D v v'
+    /\ leaves_from_original parse b64d v v'
+    /\ no_location_added parse b64d v v'.
+Proof. exact several_arguments_any_order. Qed.
+
+(* non-vacuity: redact("a[0].json().c", "a[0].json().d", "a[1]") meets the hypotheses on
+   wit_record, the three arguments denote locations of it, and all of them hold the marker *)
+Theorem C15_several_arguments_example :
+  (forall a, In a multi_args -> good_arg parse b64d wit_record a)
+  /\ args_denote parse b64d multi_args wit_record [SKey ka; SIdx 0; SHop; SKey kc]
+  /\ args_denote parse b64d multi_args wit_record [SKey ka; SIdx 0; SHop; SKey kd]
+  /\ args_denote parse b64d multi_args wit_record [SKey ka; SIdx 1]
+  /\ exists r', redact_model parse render b64d b64e no_xml wit_record multi_args = r'
+       /\ sub parse b64d r' [SKey ka; SIdx 0; SHop; SKey kc] = Some MARK
+       /\ sub parse b64d r' [SKey ka; SIdx 0; SHop; SKey kd] = Some MARK
+       /\ sub parse b64d r' [SKey ka; SIdx 1] = Some MARK.
+Proof. exact example_several_arguments. Qed.
